@@ -195,7 +195,7 @@ def mesh_edges(faces):
 
 def ugrid(mesh='tq', *, start_index=0, fill='nan', transposed=False, with_edges=None,
           edge_dimension_attr=True, supply=(), node_x=None, node_y=None, face_xy=None,
-          data_vars=None, attrs=None, coords_as_coords=False, dtype='int32', edge_order=None, fill_value=None, edge_face_fill_first=False, edge_marker=True):
+          data_vars=None, attrs=None, coords_as_coords=False, dtype='int32', edge_order=None, fill_value=None, edge_face_fill_first=False, edge_marker=True, start_index_by_table=None):
     """UGRID 2-D mesh.
 
     fill: 'nan' (float connectivity with NaN, as xarray decodes _FillValue),
@@ -220,7 +220,11 @@ def ugrid(mesh='tq', *, start_index=0, fill='nan', transposed=False, with_edges=
         edge_id = {frozenset(e): i for i, e in enumerate(edges)}
     ne = len(edges)
 
+    mesh_start_index = start_index
+
     def conn(rows, width, primary, secondary, name, extra_attrs=None):
+        # (UGRID gives every connectivity variable a start_index of its own)
+        start_index = (start_index_by_table or {}).get(name, mesh_start_index)
         arr = numpy.full((len(rows), width), FILL, dtype='int64')
         for r, row in enumerate(rows):
             for c, v in enumerate(row):
